@@ -82,7 +82,7 @@ struct endctx {
 	int rd_finished_flush;                /* this end did flush(EV_READ, FINISHED) */
 	int did_rflush;                       /* this end did flush(EV_READ, FLUSH|FINISHED) on a filter */
 	int conserve_off;                     /* stop the conservation check for the stream arriving here */
-	size_t arrived_at_eof; int eof_seen;
+	size_t arrived_at_eof; int eof_seen; char eof_stuck[48];  /* where undelivered bytes were when EOF came */
 	/* C18 */
 	size_t prev_in_len; int hw_forced;
 	size_t prev_uout_len; int uw_forced;  /* underlying output vs its high write mark */
@@ -96,7 +96,8 @@ struct endctx {
 	/* C19 */
 	int n_connected, n_readcb, n_writecb, n_eventcb;
 	int n_eof_r, n_eof_w, n_err_r, n_err_w, n_err_plain;
-	size_t notified_arrived;              /* rd_total + len(input) at the last readcb entry (or forgiveness point) */
+	const char *since_eof;                /* last application action on this end since the last EOF|READING (key tag) */
+	int ls_rd_pending, ls_wr_pending, ls_ev_pending, ls_seen_r, ls_seen_w, ls_seen_e;   /* deferred-order oracle, see one_loop() */
 	int cbs_before_connected;
 };
 static struct endctx E[2];                /* arena: never freed, so a late callback is detected without ASan */
@@ -233,11 +234,12 @@ static const char *stuck_where(struct endctx *c)
 	struct endctx *p = peer_of(c);
 	static char buf[48];
 	for (int i = 1; i < c->nstack; i++) if (evbuffer_get_length(c->stack[i]->input)) {
-		snprintf(buf, sizeof buf, "in-receiver-layer%d-input%s", i, c->did_rflush ? "+rflush" : ""); return buf; }
+		snprintf(buf, sizeof buf, "in-receiver-layer%d-input%s%s", i, c->did_rflush ? "+rflush" : "",
+		    (bufferevent_get_enabled(c->bev) & EV_READ) ? "" : "+rd-disabled"); return buf; }
 	if (g_type == T_SOCK && sock_inq(c->fd) > 0) return "in-kernel";
 	if (p->freed) return "peer-freed";
 	for (int i = p->nstack - 1; i >= 0; i--) if (evbuffer_get_length(p->stack[i]->output)) {
-		snprintf(buf, sizeof buf, "in-sender-layer%d-output", i); return buf; }
+		snprintf(buf, sizeof buf, "in-sender-layer%d-output%s", i, (bufferevent_get_enabled(c->bev) & EV_READ) ? "" : "+rd-disabled"); return buf; }
 	return "nowhere";
 }
 
@@ -260,7 +262,7 @@ static void observe_end(struct endctx *c, const char *where)
 		    where, c->id, c->rd_total + bad, bad, len);
 	}
 	if (c->eof_seen && c->rd_total + len > c->arrived_at_eof ) {
-		KEY(k, "C19/data-after-eof/%s%s", tname(), c->did_rflush ? "+rflush" : "");
+		KEY(k, "C19/data-after-eof/%s/%s", tname(), c->eof_stuck);
 		mc_fail(k, "%s: end %d received %zu more bytes after EOF was reported", where, c->id, c->rd_total + len - c->arrived_at_eof);
 		c->arrived_at_eof = c->rd_total + len;
 	}
@@ -366,7 +368,10 @@ static void readcb(struct bufferevent *bev, void *arg)
 	if (!cb_guard(c, bev, "read")) return;
 	c->n_readcb++;
 	MC_COUNT("cb_read");
-	if (g_type == T_CONNECT && connect_state && !c->n_connected) c->cbs_before_connected++;
+	if (in_loop && (c->ls_ev_pending & BEV_EVENT_CONNECTED) && !c->ls_seen_e && !c->ls_seen_r && !c->ls_seen_w) {
+		KEY(k, "C19/order/read-before-connected/%s", tname()); mc_fail(k, "end %d: read callback ran before the pending CONNECTED event", c->id); }
+	c->ls_seen_r = 1;
+	if (((g_type == T_CONNECT && connect_state) || g_tls) && !c->n_connected) c->cbs_before_connected++;
 	observe_all("readcb");
 	size_t len = in_len(c), lo = 0, hi = 0;
 	bufferevent_getwatermark(bev, EV_READ, &lo, &hi);
@@ -380,7 +385,6 @@ static void readcb(struct bufferevent *bev, void *arg)
 		mc_fail(k, "end %d: read callback with %zu bytes buffered, low read mark %zu", c->id, len, need);
 	}
 	c->rd_low_floor = lo;
-	c->notified_arrived = c->rd_total + len;
 	mc_observe("[r%d:%zu]", c->id, len);
 	size_t take = 0;
 	switch (c->policy) {
@@ -425,7 +429,10 @@ static void writecb(struct bufferevent *bev, void *arg)
 	if (!cb_guard(c, bev, "write")) return;
 	c->n_writecb++;
 	MC_COUNT("cb_write");
-	if (g_type == T_CONNECT && connect_state && !c->n_connected) c->cbs_before_connected++;
+	if (in_loop && (c->ls_ev_pending & BEV_EVENT_CONNECTED) && !c->ls_seen_e && !c->ls_seen_r && !c->ls_seen_w) {
+		KEY(k, "C19/order/write-before-connected/%s", tname()); mc_fail(k, "end %d: write callback ran before the pending CONNECTED event", c->id); }
+	c->ls_seen_w = 1;
+	if (((g_type == T_CONNECT && connect_state) || g_tls) && !c->n_connected) c->cbs_before_connected++;
 	observe_all("writecb");
 	size_t ol = out_len(c), wl = 0, wh = 0;
 	bufferevent_getwatermark(bev, EV_WRITE, &wl, &wh);
@@ -448,6 +455,14 @@ static void eventcb(struct bufferevent *bev, short what, void *arg)
 	if (!cb_guard(c, bev, "event")) return;
 	c->n_eventcb++;
 	MC_COUNT("cb_event");
+	if (in_loop && !c->ls_seen_e && (c->ls_ev_pending & ~BEV_EVENT_CONNECTED) && (what & (BEV_EVENT_EOF | BEV_EVENT_ERROR))) {
+		MC_COUNT("c19_order_checked");
+		if (c->ls_rd_pending && !c->ls_seen_r) { KEY(k, "C19/order/event-before-read/%s", tname());
+			mc_fail(k, "end %d: event 0x%x delivered before the read callback that was pending together with it", c->id, what); }
+		if (c->ls_wr_pending && !c->ls_seen_w) { KEY(k, "C19/order/event-before-write/%s", tname());
+			mc_fail(k, "end %d: event 0x%x delivered before the write callback that was pending together with it", c->id, what); }
+	}
+	if (!(what == BEV_EVENT_CONNECTED)) c->ls_seen_e = 1;
 	observe_all("eventcb");
 	mc_observe("[e%d:%02x]", c->id, what & 0xff);
 	struct endctx *p = peer_of(c);
@@ -456,7 +471,7 @@ static void eventcb(struct bufferevent *bev, short what, void *arg)
 	if (what & BEV_EVENT_TIMEOUT) { KEY(k, "C19/spurious-timeout/%s", tname()); mc_fail(k, "end %d: TIMEOUT event 0x%x without any timeout set", c->id, what); }
 	if (what & BEV_EVENT_CONNECTED) {
 		MC_COUNT("c19_connected_seen");
-		if (g_type != T_CONNECT || connect_state != 1) { KEY(k, "C19/spurious-connected/%s", tname()); mc_fail(k, "end %d: CONNECTED (0x%x) without a successful connect", c->id, what); }
+		if (!g_tls && (g_type != T_CONNECT || connect_state != 1)) { KEY(k, "C19/spurious-connected/%s", tname()); mc_fail(k, "end %d: CONNECTED (0x%x) without a successful connect", c->id, what); }
 		if (++c->n_connected > 1) { KEY(k, "C19/connected-twice/%s", tname()); mc_fail(k, "end %d: CONNECTED reported %d times", c->id, c->n_connected); }
 		if (c->cbs_before_connected) { KEY(k, "C19/connected-not-first/%s", tname()); mc_fail(k, "end %d: %d read/write callbacks before CONNECTED", c->id, c->cbs_before_connected); }
 		if (c->n_eof_r || c->n_err_r || c->n_err_w || c->n_err_plain) { KEY(k, "C19/connected-not-first/%s", tname()); mc_fail(k, "end %d: CONNECTED after EOF/ERROR", c->id); }
@@ -464,7 +479,9 @@ static void eventcb(struct bufferevent *bev, short what, void *arg)
 	if (what & BEV_EVENT_EOF) {
 		MC_COUNT("c19_eof_seen");
 		if (what & BEV_EVENT_READING) {
-			if (++c->n_eof_r > 1) { KEY(k, "C19/eof-twice/%s", tname()); mc_fail(k, "end %d: EOF|READING reported %d times", c->id, c->n_eof_r); }
+			if (++c->n_eof_r > 1) { KEY(k, "C19/eof-twice/%s/after-%s", tname(), c->since_eof ? c->since_eof : "nothing");
+				mc_fail(k, "end %d: EOF|READING reported %d times (application did not enable reading again in between)", c->id, c->n_eof_r); }
+			c->since_eof = NULL;
 			/* C17: EOF only after every byte written before the shutdown is delivered (buffered or consumed) */
 			MC_COUNT("c17_eof_checked");
 			if (!p->wr_closed && !p->freed) {
@@ -478,19 +495,12 @@ static void eventcb(struct bufferevent *bev, short what, void *arg)
 				mc_fail(k, "end %d: EOF reported with %zu of %zu bytes delivered (consumed %zu + buffered %zu)", c->id,
 				    c->rd_total + len, p->closed_at, c->rd_total, len);
 			}
-			/* C19: deferred callbacks keep condition order: data that arrived (and satisfied the low mark)
-			 * was announced by a read callback before the EOF that followed it */
-			if (c->rd_total + len > c->notified_arrived && len >= lo && len >= c->rd_low_floor && len > 0) {
-				KEY(k, "C19/order/eof-before-readcb/%s", tname());
-				mc_fail(k, "end %d: EOF event before the read callback for %zu bytes that arrived earlier", c->id,
-				    c->rd_total + len - c->notified_arrived);
-			}
-			MC_COUNT("c19_order_checked");
 			c->eof_seen = 1; c->arrived_at_eof = c->rd_total + len;
+			snprintf(c->eof_stuck, sizeof c->eof_stuck, "%s", stuck_where(c));
 		}
 		if (what & BEV_EVENT_WRITING) {
 			if (++c->n_eof_w > 1) { KEY(k, "C19/eof-twice/%s", tname()); mc_fail(k, "end %d: EOF|WRITING reported %d times", c->id, c->n_eof_w); }
-			if (!(g_type != T_SOCK && p->rd_finished_flush) && !(g_type == T_SOCK)) {
+			if (!(g_type != T_SOCK && p->rd_finished_flush) && !(g_type == T_SOCK) && !g_tls) {
 				KEY(k, "C17/spurious-eof/%s", tname()); mc_fail(k, "end %d: EOF|WRITING (0x%x) but the peer never finished reading", c->id, what);
 			}
 		}
@@ -499,7 +509,7 @@ static void eventcb(struct bufferevent *bev, short what, void *arg)
 	if (what & BEV_EVENT_ERROR) {
 		MC_COUNT("c19_error_seen");
 		int legit = 0;
-		if (g_type == T_SOCK && (p->freed || p->wr_closed || c->wr_closed)) legit = 1;
+		if ((g_type == T_SOCK || g_tls) && (p->freed || p->wr_closed || c->wr_closed)) legit = 1;
 		if (g_type == T_CONNECT) legit = 1;
 		if (!legit) { KEY(k, "C17/spurious-error/%s", tname()); mc_fail(k, "end %d: ERROR event 0x%x (errno %d) on a healthy transport", c->id, what, EVUTIL_SOCKET_ERROR()); }
 		if (what & BEV_EVENT_READING) { if (++c->n_err_r > 1) { KEY(k, "C19/error-twice/%s", tname()); mc_fail(k, "end %d: ERROR|READING %d times", c->id, c->n_err_r); } }
@@ -637,7 +647,8 @@ static void build_alphabet(const char *g)
 	case 'x': for (int e = 0; e < nends; e++) addop(OP_FREE, e, 0, 0); break;
 	case 'X': for (int e = 0; e < nends; e++) { addop(OP_POLICY, e, P_FREE_SELF_RD, 0); addop(OP_POLICY, e, P_FREE_SELF_EV, 0); addop(OP_POLICY, e, P_FREE_SELF_WR, 0); if (nends == 2) addop(OP_POLICY, e, P_FREE_PEER_RD, 0); } break;
 	case 'c': for (int e = 0; e < nends; e++) addop(OP_CLEAR, e, 0, 0); break;
-	case 's': if (g_type == T_SOCK) for (int e = 0; e < 2; e++) addop(OP_SHUTWR, e, 0, 0); break;
+	case 's': if (g_type == T_SOCK || g_tls) for (int e = 0; e < 2; e++) addop(OP_SHUTWR, e, 0, 0); break;
+	case 'S': if (g_type == T_SOCK || g_tls) addop(OP_SHUTWR, 0, 0, 0); break;
 	case 'C': if (g_type == T_CONNECT) { addop(OP_CONNECT_OK, 0, 0, 0); addop(OP_CONNECT_REFUSED, 0, 0, 0); addop(OP_PEER_SEND, 0, 3, 0); addop(OP_PEER_CLOSE, 0, 0, 0); } break;
 	case 'l': break;
 	default: fprintf(stderr, "bev: unknown op group %c\n", *p); exit(2);
@@ -649,6 +660,16 @@ static void forget_writecb_tracking(struct endctx *c) { c->wcb_due = 0; }
 static void one_loop(void)
 {
 	loop_cbs = 0; loop_broke = 0; in_loop = 1;
+	/* C19 deferred-order oracle: conditions that are already pending for one bufferevent when the loop step
+	 * starts arose in the order data/drain ... EOF/error (an EOF or error ends the stream; CONNECTED starts
+	 * it), so this step has to run CONNECTED first and the read and write callbacks before the event. */
+	for (int e = 0; e < 2; e++) {
+		struct endctx *c = &E[e];
+		c->ls_rd_pending = c->ls_wr_pending = c->ls_ev_pending = c->ls_seen_r = c->ls_seen_w = c->ls_seen_e = 0;
+		if (c->freed || c->cleared) continue;
+		struct bufferevent_private *bp = BEV_UPCAST(c->bev);
+		c->ls_rd_pending = bp->readcb_pending; c->ls_wr_pending = bp->writecb_pending; c->ls_ev_pending = bp->eventcb_pending;
+	}
 	event_base_loop(base, EVLOOP_NONBLOCK);
 	in_loop = 0;
 	if (g_type == T_CONNECT && accepted_fd < 0 && listener_fd >= 0) {
@@ -710,10 +731,22 @@ static void liveness_checks(void)
 	}
 }
 
+/* "at most once per direction" is read per enable period: a socket/TLS bufferevent whose reading is enabled
+ * again by the application after EOF/error reads again and reports the condition again (documented
+ * behaviour of bufferevent_readcb: the direction is disabled when the event is reported) */
+static void app_enable(struct endctx *c, short what)
+{
+	if (what & EV_READ) { c->n_eof_r = 0; c->n_err_r = 0; }
+	if (what & EV_WRITE) { c->n_eof_w = 0; c->n_err_w = 0; }
+}
+
 /* returns 0 if the op is not applicable in the current state (the history ends there) */
 static int apply(const struct op *o)
 {
 	struct endctx *c = &E[o->end], *p = peer_of(c);
+	static const char *opname[] = { "end", "write", "enable", "disable", "policy", "flush", "setwatermark", "setwatermark-write", "setwatermark-underlying",
+	    "free", "setcb", "loop", "shutdown", "connect", "connect", "peer-send", "peer-close", "x" };
+	if (o->kind != OP_LOOP && o->kind != OP_POLICY) c->since_eof = opname[o->kind];
 	switch (o->kind) {
 	case OP_LOOP:
 		one_loop();
@@ -736,12 +769,15 @@ static int apply(const struct op *o)
 		return 1; }
 	case OP_ENABLE:
 		if (c->freed) return 0;
+		if (g_type == T_CONNECT && !connect_state) return 0;           /* no fd yet */
 		if (bufferevent_get_enabled(c->bev) & o->a) return 0;
+		app_enable(c, o->a);
 		bufferevent_enable(c->bev, o->a);
 		mc_observe("en%d(%s) ", c->id, o->a == EV_READ ? "R" : "W");
 		return 1;
 	case OP_DISABLE:
 		if (c->freed) return 0;
+		if (g_type == T_CONNECT && !connect_state) return 0;
 		if (!(bufferevent_get_enabled(c->bev) & o->a)) return 0;
 		bufferevent_disable(c->bev, o->a);
 		if (o->a == EV_READ) c->resume_due = 0;
@@ -765,10 +801,10 @@ static int apply(const struct op *o)
 		if (o->a == EV_READ && BEV_IS_FILTER(c->bev)) {
 			/* be_filter_flush(EV_READ) moves data into the input without a read callback
 			 * (upstream "XXX"): that data is not covered by the order oracle */
-			c->notified_arrived = (size_t)-1;
 		}
 		int r = bufferevent_flush(c->bev, o->a, o->b);
-		if (o->a == EV_READ && BEV_IS_FILTER(c->bev)) c->notified_arrived = c->rd_total + in_len(c);
+		/* bytes the reader itself pulls out of a filter by flushing after EOF are not "data after EOF" */
+		if (o->a == EV_READ && o->b != BEV_NORMAL && c->eof_seen) c->arrived_at_eof = c->rd_total + in_len(c);
 		if (o->b == BEV_FINISHED && !p->freed) {
 			if (o->a == EV_WRITE) { c->wr_closed = 1; c->closed_at = c->wr_total; }
 			else c->rd_finished_flush = 1;
@@ -782,9 +818,7 @@ static int apply(const struct op *o)
 		/* a read callback scheduled under the old low mark may still be pending */
 		if (!BEV_UPCAST(c->bev)->readcb_pending) c->rd_low_floor = o->a;
 		else if ((size_t)o->a < c->rd_low_floor) c->rd_low_floor = o->a;
-		c->notified_arrived = (size_t)-1;
 		bufferevent_setwatermark(c->bev, EV_READ, o->a, o->b);
-		c->notified_arrived = c->rd_total + in_len(c);
 		if (o->b == 0 || in_len(c) < (size_t)o->b) {
 			if (hi && in_len(c) >= hi) { c->resume_due = 1; c->resume_arrived = c->rd_total + in_len(c); }
 		} else c->resume_due = 0;
@@ -820,10 +854,13 @@ static int apply(const struct op *o)
 	case OP_SHUTWR:
 		if (c->freed || c->wr_closed) return 0;
 		/* bytes still in the output buffer were not "written before the shutdown" at transport level */
+		/* TLS: the application sends close_notify itself; only after the handshake and with nothing left to send
+		 * (writing after one's own close_notify is application misuse) */
+		if (g_tls && (out_len(c) || tls_shutdown(c) < 0)) return 0;
 		c->closed_at = c->wr_total - out_len(c);
 		c->wr_closed = 1;
 		p->conserve_off = 1;
-		shutdown(c->fd, SHUT_WR);
+		if (!g_tls) shutdown(c->fd, SHUT_WR);
 		mc_observe("shutwr%d ", c->id);
 		return 1;
 	case OP_CONNECT_OK: case OP_CONNECT_REFUSED: {
@@ -835,6 +872,7 @@ static int apply(const struct op *o)
 		int r = bufferevent_socket_connect(c->bev, (struct sockaddr *)&sin, sizeof sin);
 		mc_observe("connect(%s)=%d ", connect_state == 1 ? "ok" : "refused", r);
 		if (r < 0 && connect_state == 1) { mc_fail("C19/connect-failed/connect", "bufferevent_socket_connect to a live listener returned %d", r); }
+		if (r == 0) bufferevent_enable(c->bev, EV_READ | EV_WRITE);      /* the usual client sequence */
 		return 1; }
 	case OP_PEER_SEND:
 		if (accepted_fd < 0 || p->wr_closed) return 0;
@@ -853,6 +891,19 @@ static int apply(const struct op *o)
 }
 
 /* ------------------------------------------------------------------ final drain */
+static void quiesce(void)
+{
+	int idle = 0;
+	for (int i = 0; i < 80 && idle < 2; i++) {
+		size_t before = E[0].rd_total + E[1].rd_total;
+		one_loop();
+		observe_all("final-drain");
+		if (E[0].freed || E[1].freed) return;
+		if (loop_broke) { idle = 0; continue; }
+		if (E[0].rd_total + E[1].rd_total == before && loop_cbs == 0) idle++; else idle = 0;
+	}
+}
+
 static void final_drain(void)
 {
 	if (!g_final || g_type == T_CONNECT) return;
@@ -866,27 +917,44 @@ static void final_drain(void)
 		c->policy = P_ALL;
 		c->rd_low_floor = 0; c->wr_low_ceil = (size_t)-1; c->wr_forgive = 1;
 		for (int i = 0; i < c->nstack; i++) {
-			bufferevent_setwatermark(c->stack[i], EV_READ | EV_WRITE, 0, 0);
+			size_t lo, hi, wlo, whi;
+			bufferevent_getwatermark(c->stack[i], EV_READ, &lo, &hi); bufferevent_getwatermark(c->stack[i], EV_WRITE, &wlo, &whi);
+			if (lo || hi || wlo || whi) { bufferevent_setwatermark(c->stack[i], EV_READ | EV_WRITE, 0, 0); c->since_eof = "setwatermark"; }
 		}
-		bufferevent_enable(c->bev, EV_READ | EV_WRITE);
-		c->notified_arrived = c->rd_total + in_len(c);
+		short missing = (EV_READ | EV_WRITE) & ~bufferevent_get_enabled(c->bev);
+		if (missing) { app_enable(c, missing); bufferevent_enable(c->bev, missing); }
 	}
-	for (int i = 0; i < 40; i++) {
-		size_t before = E[0].rd_total + E[1].rd_total;
-		one_loop();
-		observe_all("final-drain");
-		if (E[0].freed || E[1].freed) return;
-		if (loop_broke) continue;
-		if (E[0].rd_total + E[1].rd_total == before && loop_cbs == 0) break;
-	}
+	quiesce();
+	if (E[0].freed || E[1].freed) return;
 	MC_COUNT("c17_final_drains");
-	/* Not a verdict: bytes may legitimately stay parked (output written while EV_WRITE was disabled,
-	 * data moved by flush(EV_READ) into a filter input, NEED_MORE tail).  Loss is decided by the
-	 * conservation oracle, which is exact; this only counts how often a history ends with parked bytes. */
+	/* C17 at quiescence ("the bytes read equal the bytes written"): bytes can legitimately stay parked while
+	 * nothing new happens (output written while EV_WRITE was disabled, data moved by flush(EV_READ) into a
+	 * filter input without a callback, a low read mark that was lowered later, NEED_MORE tail), so each end
+	 * that may still write sends ONE more byte; after that arrival and a loop to quiescence everything that
+	 * was written must have been handed to the reading application. */
+	int nudged[2] = { 0, 0 };
+	for (int e = 0; e < 2; e++) {
+		struct endctx *c = &E[e];
+		if (c->wr_closed || c->wr_total + 1 > PATLEN) continue;
+		if (c->n_err_w || c->n_err_r || c->n_err_plain || c->n_eof_w) continue;
+		c->wr_total += 1;
+		if (bufferevent_write(c->bev, pat[1 - c->id] + c->wr_total - 1, 1) != 0) { c->wr_total -= 1; continue; }
+		nudged[e] = 1;
+	}
+	observe_all("final-nudge");
+	quiesce();
+	if (E[0].freed || E[1].freed || loop_broke) return;
 	for (int e = 0; e < 2; e++) {
 		struct endctx *c = &E[e], *p = peer_of(c);
-		size_t expect = (g_type == T_SOCK && p->wr_closed) ? p->closed_at : p->wr_total;
-		if (c->rd_total + in_len(c) != expect) MC_COUNT("final_parked_bytes_histories");
+		if (!nudged[p->id] || c->eof_seen || c->n_err_r || c->n_eof_r || p->n_err_w || p->n_eof_w) continue;
+		size_t got = c->rd_total, want = p->wr_total;
+		MC_COUNT("c17_quiescence_checked");
+		if (g_type == T_FILTER && g_filt == F_NEEDMORE && got + 1 == want && evbuffer_get_length(c->stack[1]->input) == 1) continue;
+		if (got != want) {
+			KEY(k, "C17/not-delivered-at-quiescence/%s/%s", tname(), in_len(c) ? "in-receiver-input-no-readcb" : stuck_where(c));
+			mc_fail(k, "end %d consumed %zu of %zu bytes after everything was enabled, watermarks removed, one more byte written and the loop run to quiescence (filter %d)",
+			    c->id, got, want, g_filt);
+		}
 	}
 }
 
@@ -960,12 +1028,11 @@ static int canon(uint64_t *out)
 	for (int e = 0; e < 2; e++) {
 		struct endctx *c = &E[e], *p = peer_of(c);
 		H(0xe0 + e); H(c->freed); H(c->cleared); H(c->policy); H(c->wr_closed); H(c->rd_finished_flush); H(c->did_rflush); H(c->conserve_off);
-		H(c->eof_seen); H(c->hw_forced); H(c->uw_forced); H(c->rd_low_floor); H(c->wr_low_ceil); H(c->wr_forgive);
+		H(c->since_eof ? c->since_eof[0] + c->since_eof[3] * 256 : 0); H(c->eof_seen); if (c->eof_seen) h = mc_hash(h, c->eof_stuck, strlen(c->eof_stuck)); H(c->hw_forced); H(c->uw_forced); H(c->rd_low_floor); H(c->wr_low_ceil); H(c->wr_forgive);
 		H(c->wcb_due); H(c->resume_due); H(c->n_connected); H(c->cbs_before_connected > 0);
 		H(c->n_eof_r > 1 ? 2 : c->n_eof_r); H(c->n_eof_w > 1 ? 2 : c->n_eof_w);
 		H(c->n_err_r > 1 ? 2 : c->n_err_r); H(c->n_err_w > 1 ? 2 : c->n_err_w); H(c->n_err_plain > 1 ? 2 : c->n_err_plain);
 		H(c->prev_in_len); H(c->prev_uout_len); H(c->prev_out_len); H(c->wr_total - c->prev_wr_total);
-		H(c->notified_arrived - c->rd_total); H(c->eof_seen ? c->arrived_at_eof - c->rd_total : 0);
 		H(c->resume_due ? c->resume_arrived - c->rd_total : 0);
 		H(p->wr_closed ? p->closed_at - c->rd_total : 0);
 		H(p->wr_total - c->rd_total);                 /* bytes of the stream not yet consumed (redundant with lengths when conserved) */
@@ -1105,7 +1172,9 @@ int main(int argc, char **argv)
 	else { fprintf(stderr, "bev: unknown filter %s\n", filt); return 2; }
 	if (!strcmp(opts, "0")) g_opts = 0; else if (!strcmp(opts, "defer")) g_opts = 1; else if (!strcmp(opts, "defer_unlock")) g_opts = 2;
 	else { fprintf(stderr, "bev: unknown opts %s\n", opts); return 2; }
-	if (g_type == T_FILTER) snprintf(tn, sizeof tn, "filter-%s", filt); else snprintf(tn, sizeof tn, "%s", type);
+	/* keys carry the transport class; the filter function (null/ident/xor/needmore) is a parameter of the run,
+	 * the defects found so far are in bufferevent_filter.c itself and do not depend on it */
+	snprintf(tn, sizeof tn, "%s", type);
 	g_tname = tn;
 	cfg.property = !strcmp(prop, "18") ? "C18" : !strcmp(prop, "19") ? "C19" : "C17";
 	g_prop = atoi(prop);
